@@ -31,6 +31,7 @@ const (
 	verifTickCliCloseDone
 	verifTickCliTimeoutResolved
 	verifTickSrvReqTimer
+	verifTickSrvIdle
 )
 
 func verifTick(which int)                                                  {}
